@@ -552,7 +552,52 @@ def rule_explicit_default_byte(ctx: Ctx, rep: Report) -> None:
     rep.floor(rule, 1)
 
 
+def rule_script_code_order(ctx: Ctx, rep: Report) -> None:
+    """C09.script_code_order: the legacy script code is the script *from the last
+    executed OP_CODESEPARATOR on*, and FindAndDelete runs on that: Core computes
+    `scriptCode(pbegincodehash, pend)` first and deletes from it. In
+    `calculate_script_code` the slice by the codeseparator offset is taken
+    before `find_and_delete`, and what is returned is not sliced again -- a
+    deletion before the offset would shift everything the offset points at."""
+    rule = "C09.script_code_order"
+    fi = ctx.func("btclib.script.engine.script.calculate_script_code")
+    off = fi.params()[1]
+    sl = sorted([a for a in own_nodes(fi.node) if isinstance(a, ast.Assign) and isinstance(a.value, ast.Subscript) and isinstance(a.value.slice, ast.Slice) and a.value.slice.lower is not None
+                 and any(isinstance(x, ast.Name) and x.id == off for x in ast.walk(a.value.slice.lower))], key=lambda a: a.lineno)
+    fd = sorted([c for c in own_nodes(fi.node) if isinstance(c, ast.Call) and call_name(c) == "find_and_delete"], key=lambda c: c.lineno)
+    ok = bool(sl) and bool(fd) and sl[0].lineno < fd[0].lineno and isinstance(fd[0].args[0], ast.Name) and isinstance(sl[0].targets[0], ast.Name) and fd[0].args[0].id == sl[0].targets[0].id
+    rep.ob(rule, "calculate_script_code:slice_then_delete", ok, fi.where(fd[0] if fd else None), "the script code is cut at the codeseparator, then searched" if ok else
+           "find_and_delete does not run on the script cut at the codeseparator offset: a signature deleted before the offset moves what the offset points at")
+    rets = [r for r in own_nodes(fi.node) if isinstance(r, ast.Return) and r.value is not None]
+    okr = all(not isinstance(r.value, ast.Subscript) for r in rets)
+    rep.ob(rule, "calculate_script_code:returned_whole", okr, fi.where(rets[0] if rets else None), "what was searched is what is returned" if okr else f"`{norm(rets[0])}` cuts the script code after the deletion")
+    rep.floor(rule, 2)
+
+
+def rule_redeem_script_refusals(ctx: Ctx, rep: Report) -> None:
+    """C09.redeem_script_refusals: the redeem script of a p2sh input is the *last*
+    push of its script_sig, whatever precedes it -- the signatures of a
+    p2sh multisig do. `sig_hash.redeem_script` refuses an empty script_sig, a
+    last command that is no push, and a hash that does not match; it has no
+    refusal on how many commands there are, which would refuse every p2sh
+    spend that is not a wrapped segwit program."""
+    from sa.ranges import refusal_constraints
+    rule = "C09.redeem_script_refusals"
+    fi = ctx.func("btclib.script.sig_hash.redeem_script")
+    cs = refusal_constraints(ctx, fi)
+    counts = [c for c in cs if str(c.subject).replace(" ", "").startswith("len(") and not c.from_fact and not (c.op in ("==", "<", "<=", "falsy") and c.value in (0, 1, None))]
+    counts = [c for c in counts if c.op in (">", ">=", "!=") ]
+    rep.ob(rule, "redeem_script:no_count_refusal", not counts, fi.where(counts[0].node if counts and counts[0].node is not None else None), "no refusal on the number of commands" if not counts else
+           f"`{counts[0].show()}` refuses a script_sig by its number of pushes: a p2sh multisig spend (signatures, then the redeem script) has no sig_hash")
+    takes_last = any(isinstance(x, ast.Subscript) and ctx.fold(x.slice, fi.module) == -1 for x in own_nodes(fi.node))
+    rep.ob(rule, "redeem_script:last_push", takes_last, fi.where(), "the last command is the one read")
+    rep.floor(rule, 2)
+
+
 RULES = [
+    ("C09.script_code_order", rule_script_code_order),
+    ("C09.redeem_script_refusals", rule_redeem_script_refusals),
+
     ("C09.explicit_default_byte", rule_explicit_default_byte),
     ("C09.explicit_zero", rule_explicit_zero),
     ("C09.params_forwarded", rule_params_forwarded_),
